@@ -4,6 +4,7 @@
   counts, any control script; non-vacuity examples; audit.  Helper lemmas: `ALV.Lemmas.C17*`.
 -/
 import ALV.Lemmas.C17Close
+import ALV.Lemmas.C17Chunks
 import ALV.Common.Audit
 
 namespace ALV.Props.C17
@@ -22,6 +23,29 @@ theorem delivered_prefix {cfg : Cfg} {script : List Cmd} {s : State} (h : Reach 
   rcases h3 ha with ht | ht
   · rw [← h0, ← h1, ht, List.append_nil]
   · rw [hh] at ht; cases ht
+
+/-- **C17.1b chunks_are_padded_audio** — `chunks(audio)` consists of chunks of exactly `cs`
+samples whose concatenation is the audio followed by zero padding to a chunk boundary (fewer than
+`cs` zeros), for every chunk size and every audio length. -/
+theorem chunks_are_padded_audio (cs : Nat) (hs : 0 < cs) (audio : List Int) :
+    (chunksOf cs audio).flatten = audio ++ List.replicate (padLen cs audio.length) 0 ∧
+    (∀ c ∈ chunksOf cs audio, c.length = cs) ∧ padLen cs audio.length < cs := by
+  rw [chunksOf_eq_chunksSpec cs hs]
+  refine ⟨groups_flatten cs hs _ _ rfl, groups_len cs hs _ _ rfl (padded_len_mod cs hs audio), ?_⟩
+  exact Nat.mod_lt _ hs
+
+/-- **C17.1c delivered_complete** — a player that left its loop without having been stopped has
+delivered exactly the audio followed by the zero padding, as consecutive chunks of `cs` samples. -/
+theorem delivered_complete {cfg : Cfg} {script : List Cmd} {s : State} (h : Reach cfg script s)
+    (hcs : 0 < cfg.cs) (k : Nat) (p : Player) (hp : s.players[k]? = some p)
+    (ha : afterLoop p.pc = true) (hh : p.halting = false) :
+    p.written.flatten = p.audio ++ List.replicate (padLen cfg.cs p.audio.length) 0 ∧
+    ∀ c ∈ p.written, c.length = cfg.cs := by
+  have hw := (delivered_prefix h k p hp).2 ha hh
+  rw [hw]
+  exact ⟨(chunks_are_padded_audio cfg.cs hcs p.audio).1, (chunks_are_padded_audio cfg.cs hcs p.audio).2.1⟩
+
+example : chunksOf 2 [1, 2, 3] = [[1, 2], [3, 0]] := by decide
 
 /-- **C17.2 terminate_once** — the backend is terminated at most once, whatever the schedule
 and however often `close` is called. -/
